@@ -55,6 +55,9 @@ pub fn err_outcome(e: &IppParseError) -> Outcome {
         IppParseError::InvalidTag(t) => Outcome::InvalidTag(*t),
         IppParseError::InvalidCollection => Outcome::InvalidCollection,
         IppParseError::IoError(e) => Outcome::Io(io_kind_name(e.kind())),
+        // a variant added to the library later: still an error outcome, classified by its Debug name
+        #[allow(unreachable_patterns)]
+        other => Outcome::Io(format!("other:{}", format!("{other:?}").chars().take_while(|c| c.is_alphanumeric()).collect::<String>())),
     }
 }
 
